@@ -123,4 +123,85 @@ theorem subSum_congr {s s' : State} (h : EqButUse s s') (cfg : Cfg) (t : Nat) : 
   · rw [if_pos hc, if_pos (hin.2 hc)]
   · rw [if_neg hc, if_neg (fun h' => hc (hin.1 h'))]
 
+
+theorem oof_false_of_le {a b : State} (h : FlagsLe a b) (hb : b.oof = false) : a.oof = false :=
+  (flag_false_of_le h).1 hb
+
+/-- **walk = subtree sum** -/
+theorem walk_sum {rk : Nat → Nat} (cfg : Cfg) (f : Nat) :
+    ∀ (s : State) (t : Nat) (op : WOp), Inv rk s →
+      (∀ z zb, InSub s t z → s.get z = some zb → zb.pending = false) →
+      (∃ tb, s.get t = some tb) →
+      (walk cfg f s t op).1.oof = false → (walk cfg f s t op).2 = subSum cfg s t := by
+  induction f with
+  | zero => intro s t op _ _ _ hoof; simp [walk] at hoof
+  | succ f ih =>
+    intro s t op i hnp ⟨tb, ht⟩ hoof
+    simp only [walk, ht] at hoof ⊢
+    have htp : tb.pending = false := hnp t tb (Or.inl rfl) ht
+    simp only [htp, Bool.false_eq_true, if_false] at hoof ⊢
+    -- the fold over the children
+    have hfold : ∀ (l : List Id) (acc : State × Nat), EqButUse s acc.1 → (∀ c ∈ l, c ∈ tb.children) →
+        (l.foldl (fun (acc : State × Nat) c =>
+            ((walk cfg f acc.1 c (walkSync s t tb op).2).1,
+              acc.2 + (walk cfg f acc.1 c (walkSync s t tb op).2).2)) acc).1.oof = false →
+        (l.foldl (fun (acc : State × Nat) c =>
+            ((walk cfg f acc.1 c (walkSync s t tb op).2).1,
+              acc.2 + (walk cfg f acc.1 c (walkSync s t tb op).2).2)) acc).2 =
+          acc.2 + (l.map fun c => subSum cfg s c).sum := by
+      intro l
+      induction l with
+      | nil => intro acc _ _ _; simp
+      | cons c l ihl =>
+        intro acc he hsub hoof'
+        simp only [List.foldl_cons] at hoof' ⊢
+        have hc : c ∈ tb.children := hsub c List.mem_cons_self
+        obtain ⟨cb, hcb, hcp, -⟩ := i.wf.childBack t tb c ht hc
+        have hanc : Anc s t c := Anc.parent (by rw [parentOf_eq hcb]; exact hcp)
+        have he2 := he.trans (walk_eqButUse cfg f acc.1 c (walkSync s t tb op).2)
+        -- the walk of c did not run out of fuel
+        have hoofc : (walk cfg f acc.1 c (walkSync s t tb op).2).1.oof = false := by
+          have hfl : ∀ (l : List Id) (a : State × Nat), FlagsLe a.1
+              (l.foldl (fun (acc : State × Nat) c =>
+                ((walk cfg f acc.1 c (walkSync s t tb op).2).1,
+                  acc.2 + (walk cfg f acc.1 c (walkSync s t tb op).2).2)) a).1 := by
+            intro l
+            induction l with
+            | nil => intro a; exact .refl _
+            | cons d l ihl' =>
+              intro a
+              simp only [List.foldl_cons]
+              exact (walk_flagsLe cfg f a.1 d (walkSync s t tb op).2).trans
+                (ihl' ((walk cfg f a.1 d (walkSync s t tb op).2).1, a.2 + (walk cfg f a.1 d (walkSync s t tb op).2).2))
+          exact oof_false_of_le (hfl l ((walk cfg f acc.1 c (walkSync s t tb op).2).1,
+            acc.2 + (walk cfg f acc.1 c (walkSync s t tb op).2).2)) hoof'
+        have hrec := ihl ((walk cfg f acc.1 c (walkSync s t tb op).2).1,
+            acc.2 + (walk cfg f acc.1 c (walkSync s t tb op).2).2) he2
+          (fun d hd => hsub d (List.mem_cons_of_mem _ hd)) hoof'
+        rw [hrec]
+        -- the walk of c counted its subtree
+        obtain ⟨cb', hcb', -⟩ := he.get hcb
+        have hnpc : ∀ z zb, InSub acc.1 c z → acc.1.get z = some zb → zb.pending = false := by
+          intro z zb hz hzb
+          have hz' : InSub s c z := (InSub.congr he.parentOf).1 hz
+          obtain ⟨zb0, hzb0, e0⟩ := he.symm.get hzb
+          have hzt : InSub s t z := by
+            rcases hz' with rfl | h
+            · exact Or.inr hanc
+            · exact Or.inr (hanc.trans h)
+          have := hnp z zb0 hzt hzb0
+          rw [e0] at this; exact this
+        have hw := ih acc.1 c (walkSync s t tb op).2 (⟨i.wf.shapeEq he.shapeEq, i.ranked.shapeEq he.shapeEq⟩)
+          hnpc ⟨cb', hcb'⟩ hoofc
+        rw [hw, subSum_congr he]
+        simp only [List.map_cons, List.sum_cons]; omega
+    have h0 := walkSync_eqButUse s t tb op
+    have := hfold tb.children ((walkSync s t tb op).1, 0) h0 (fun c hc => hc) hoof
+    rw [this]
+    -- put the pieces together
+    unfold subSum
+    rw [sum_sub_decomp i t tb ht hnp (wcAt cfg s)]
+    have : wcAt cfg s t = walkCharge cfg tb.size := by simp [wcAt, ht]
+    rw [this]; simp only [Nat.zero_add]; omega
+
 end Usual.C01
